@@ -206,11 +206,12 @@ def _it_env(nodes=None, loop=None):
     return bytes(e).ljust(82, b"\0")
 
 
-def _it_instrument(smp, dfp=0x80 | 32, pps=0, ppc=60, rp=0, penv=None, penv_loop=None):
-    h = bytearray(b"IMPI" + b"ins".ljust(12, b"\0") + b"\0" + bytes([0, 0, 0]))
-    h += struct.pack("<HbB", 0, pps, ppc)
+def _it_instrument(smp, dfp=0x80 | 32, pps=0, ppc=60, rp=0, penv=None, penv_loop=None, nna=0, dct=0, dca=0, fadeout=0,
+                   ifc=0, ifr=0):
+    h = bytearray(b"IMPI" + b"ins".ljust(12, b"\0") + b"\0" + bytes([nna, dct, dca]))
+    h += struct.pack("<HbB", fadeout, pps, ppc)
     h += bytes([128, dfp, 0, rp]) + struct.pack("<HBB", 0x0214, 1, 0)
-    h += b"c14 pan".ljust(26, b"\0") + bytes([0, 0, 0, 0]) + struct.pack("<H", 0)
+    h += b"c14 pan".ljust(26, b"\0") + bytes([ifc, ifr, 0, 0]) + struct.pack("<H", 0)
     assert len(h) == 64
     for n in range(120):
         h += bytes([n, smp])
@@ -356,6 +357,115 @@ def xm_pan(rng):
     hdr = b"Extended Module: " + b"c14 pan xm".ljust(20, b"\0") + b"\x1a" + b"c14synth".ljust(20, b"\0") + struct.pack("<H", 0x0104)
     hdr += struct.pack("<IHHHHHHHH", 276, 2, 0, nchn, 1, 2, 1, 4, 125) + bytes([0, 0]).ljust(256, b"\0")
     return hdr + pat + insts
+
+
+def it_reuse(variant, rng):
+    """IT module (instrument mode) in which a voice slot changes owner: channel 1 plays short notes whose previous
+    voice is moved to the background by the new-note action and is then freed (sample end, fade to silence, duplicate
+    check, cut); channel 2 (and 3) start notes a few rows later and are given the freed slot (the mixer allocates the
+    lowest free slot).  `variant`: filter (resonant IT filter IFC/IFR on all instruments), zxx (Zxx cutoff effects),
+    fade (NNA fade on a ping-pong looped sample: the background voice is reset when it falls silent, possibly while
+    playing backwards), dct (duplicate note check cuts the background voice), cut (NNA cut), combined with +."""
+    v = set(variant.split("+"))
+    nchn = 3
+    cp = [32] * nchn + [0xA0] * (64 - nchn)
+    cp[0], cp[1] = 16, 48
+    # samples: 1 one-shot, 2 forward loop, 3 ping-pong loop, 4 longer one-shot
+    def wave(n, k):
+        return bytes((int(110 * ((i * (3 + k)) % 64 - 32) / 32) if i % 2 else rng.randrange(-120, 120)) & 0xFF for i in range(n))
+    smps = [(2600, 0, 0, 0), (64, 0, 64, 0x10), (400, 100, 400, 0x10 | 0x40), (5200, 0, 0, 0)]
+    sdata = [wave(n, k) for k, (n, _, _, _) in enumerate(smps)]
+    flt = dict(ifc=0x80 | 0x34, ifr=0x80 | 0x70) if "filter" in v else {}
+    flt2 = dict(ifc=0x80 | 0x50, ifr=0x80 | 0x40) if "filter" in v else {}
+    nna = 0 if "cut" in v else 1
+    insts = [
+        _it_instrument(1, nna=nna, dct=1 if "dct" in v else 0, dca=0, **flt),               # 1: one-shot, continue / cut
+        _it_instrument(2, nna=3 if "fade" in v else nna, fadeout=600, **flt2),              # 2: forward loop
+        _it_instrument(3, nna=3 if "fade" in v else 1, fadeout=900, **flt),                 # 3: ping-pong loop
+        _it_instrument(4, nna=nna, **flt2),                                                # 4: longer one-shot
+    ]
+    pats = []
+    for pno in range(2):
+        data = bytearray()
+        for r in range(64):
+            evs = []
+            ph = r % 16
+            if ph in (0, 1, 2) or (ph == 9 and "dct" in v):
+                note = 60 if "dct" in v else rng.choice([55, 60, 64, 67])
+                evs.append((1, note, rng.choice([1, 1, 3, 4]) if ph != 9 else 1, None))
+            if ph == 5 and "fade" in v:
+                evs.append((1, 255, None, None))                               # note off: the ping-pong voice fades
+            if ph in (6 + pno, 12):
+                fx = (26, rng.choice([0x20, 0x48, 0x7F, 0x10])) if "zxx" in v else None
+                evs.append((2, rng.choice([48, 60, 62]), rng.choice([2, 1, 4]), fx))
+            if ph == 8:
+                evs.append((3, rng.choice([52, 57]), rng.choice([1, 4, 3]), (26, 0x30) if "zxx" in v else None))
+            if ph == 14:
+                evs.append((2, 254, None, None))                               # note cut on channel 2
+                evs.append((3, 254, None, None))
+            if "zxx" in v and ph == 1:
+                evs.append((1, None, None, (26, rng.choice([0x18, 0x60]))))
+            seen = set()
+            for (c, note, ins, fx) in evs:
+                if c in seen:
+                    continue
+                seen.add(c)
+                mask = (1 if note is not None else 0) | (2 if ins is not None else 0) | (8 if fx is not None else 0)
+                data += bytes([c | 0x80, mask])
+                if note is not None:
+                    data.append(note)
+                if ins is not None:
+                    data.append(ins)
+                if fx is not None:
+                    data += bytes(fx)
+            data.append(0)
+        pats.append(struct.pack("<HHI", len(data), 64, 0) + bytes(data))
+    orders = bytes([0, 1, 0, 1, 255])
+    nins, nsmp, npat = len(insts), len(smps), len(pats)
+    hdr = bytearray(b"IMPM" + ("c14 reuse " + variant).encode()[:26].ljust(26, b"\0") + b"\x04\x10")
+    hdr += struct.pack("<HHHH", len(orders), nins, nsmp, npat)
+    hdr += struct.pack("<HHHH", 0x0214, 0x0214, 0x0D, 0)
+    hdr += bytes([128, 48, 3, 125, 128, 0]) + struct.pack("<HII", 0, 0, 0)
+    hdr += bytes(cp) + bytes([64] * 64)
+    off = 192 + len(orders) + 4 * (nins + nsmp + npat)
+    ioff = [off + 554 * i for i in range(nins)]
+    off += 554 * nins
+    soff = [off + 80 * i for i in range(nsmp)]
+    off += 80 * nsmp
+    poff = []
+    for pb in pats:
+        poff.append(off)
+        off += len(pb)
+    shdr = []
+    for (n, lb, le, lf), d in zip(smps, sdata):
+        sh = bytearray(b"IMPS" + b"w.raw".ljust(12, b"\0") + b"\0" + bytes([64, 1 | lf, 64]))
+        sh += b"wave".ljust(26, b"\0") + bytes([1, 32])
+        sh += struct.pack("<IIII", n, lb, le, 8363 * 2) + struct.pack("<III", 0, 0, off) + bytes(4)
+        shdr.append(bytes(sh).ljust(80, b"\0"))
+        off += n
+    return (bytes(hdr) + orders + b"".join(struct.pack("<I", x) for x in ioff + soff + poff) + b"".join(insts)
+            + b"".join(shdr) + b"".join(pats) + b"".join(sdata))
+
+
+REUSE_VARIANTS = ["filter", "filter+zxx", "filter+fade", "filter+dct", "filter+cut", "zxx", "fade", "filter+zxx+fade+dct"]
+
+
+def reuse_modules(outdir, seed):
+    """IT modules in which voice slots change owner channel (deterministic in the seed)."""
+    os.makedirs(outdir, exist_ok=True)
+    paths = []
+    for k, v in enumerate(REUSE_VARIANTS):
+        rng = random.Random(seed * 49979687 + k * 67867967)
+        p = os.path.join(outdir, "c14reuse_%d_%s.it" % (seed, v.replace("+", "-")))
+        data = it_reuse(v, rng)
+        try:
+            same = open(p, "rb").read() == data
+        except OSError:
+            same = False
+        if not same:
+            open(p, "wb").write(data)
+        paths.append(p)
+    return paths
 
 
 PAN_VARIANTS = ["chan", "smp", "ins", "penv", "pps", "rp", "brello", "slide", "chan+brello", "ins+penv+rp",
